@@ -1695,7 +1695,10 @@ dt_dtadd(struct dt_dt_s d, struct dt_dtdur_s dur)
 				/* stepped back over insertions, those we are
 				 * in now, not all NLTR of them */
 				d.t.hms.s += leaps_corr[i_orig] - leaps_corr[i_d];
-			} else if (UNLIKELY(i_d > i_orig)) {
+			} else if (UNLIKELY(i_d > i_orig) &&
+				   leaps_corr[i_d] != leaps_corr[i_orig]) {
+				/* the correction took us over an insertion again,
+				 * (the table's first row isn't one) */
 				d = orig;
 				d.t.hms.s += nltr;
 				if (UNLIKELY(d.t.hms.s > SECS_PER_MIN)) {
